@@ -57,8 +57,12 @@ k('C01', 'rename a message field', 'protocol/messages.py', "        greeting: Op
 b('C02', 'drop MessageDeserializationError handler in reader loop', 'network/connection.py',
   "            except MessageDeserializationError as exc:\n                adapter.warning(\n                    \"failed to deserialize message : %s\", exc.proto_message, extra=self.__dict__)\n\n            else:\n\n                if not message:",
   "            else:\n\n                if not message:", 'R-C02-ESCAPE')
-b('C02', 'handler leaves the loop', 'network/connection.py', "            except ConnectionReadError:\n                adapter.warning(\"read error\", extra=self.__dict__)\n",
-  "            except ConnectionReadError:\n                adapter.warning(\"read error\", extra=self.__dict__)\n                return\n", 'R-C02-ESCAPE')
+b('C02', 'decode-error handler leaves the loop', 'network/connection.py',
+  "                adapter.warning(\n                    \"failed to deserialize message : %s\", exc.proto_message, extra=self.__dict__)\n",
+  "                adapter.warning(\n                    \"failed to deserialize message : %s\", exc.proto_message, extra=self.__dict__)\n                return\n", 'R-C02-ESCAPE')
+k('C02', 'read-error handler leaves the loop (the connection was closed by _read)', 'network/connection.py',
+  "            except ConnectionReadError:\n                adapter.warning(\"read error\", extra=self.__dict__)\n",
+  "            except ConnectionReadError:\n                adapter.warning(\"read error\", extra=self.__dict__)\n                return\n")
 b('C02', 'body read with read()', 'network/connection.py', "message = await self._reader.readexactly(message_len)", "message = await self._reader.read(message_len)", 'R-C02-FRAME')
 b('C02', 'remove catch-all around callback', 'network/connection.py', "        try:\n            await self.network.on_message_received(message, self)\n        except Exception:\n            adapter.exception(\"error during callback : %s\", message, extra=self.__dict__)",
   "        await self.network.on_message_received(message, self)", 'R-C02-ESCAPE')
